@@ -312,5 +312,7 @@ func init() {
 	register(&Scenario{Prop: "C18", Name: "c18/close-3", Quick: []Bound{{1, 0}}, Thorough: []Bound{{2, 0}}, Body: c18Close(3), MaxSteps: 100000})
 	register(&Scenario{Prop: "C18", Name: "c18/failover", Quick: []Bound{{0, 0}, {1, 0}}, Thorough: []Bound{{2, 0}}, Body: c18Failover, MaxSteps: 100000})
 	register(&Scenario{Prop: "C18", Name: "c18/swap-3targets", Quick: []Bound{{1, 0}, {2, 0}}, Thorough: []Bound{{3, 0}}, Body: c18Swap, MaxSteps: 100000})
+	// the same closed system judged for crashes only (C08: a server that goes away and refuses reconnects must not panic the load-balancing client)
+	register(&Scenario{Prop: "C08", Name: "c08/client-targets-die-and-recover", Quick: []Bound{{1, 0}, {2, 0}}, Thorough: []Bound{{3, 0}}, Body: c18Swap, MaxSteps: 100000, OnlyKeys: []string{"panic/", "livelock/"}})
 	register(&Scenario{Prop: "C18", Name: "c18/fallback", Quick: []Bound{{1, 0}}, Thorough: []Bound{{2, 0}}, Body: c18Fallback, MaxSteps: 100000})
 }
